@@ -204,10 +204,18 @@ func runSubCase(c subCase) (subObs, error) {
 			ctx, cancel := context.WithTimeout(context.Background(), 5*time.Second)
 			var chid datatransfer.ChannelID
 			var err error
+			// per-transfer subscriber, in half of the cases together with (no-op) per-transfer transport options, in either order
+			noop := datatransfer.WithTransportOptions(func(datatransfer.ChannelID, datatransfer.Transport) error { return nil })
+			opts := []datatransfer.TransferOption{datatransfer.WithSubscriber(rs.cb)}
+			if i%2 == 0 {
+				opts = append(opts, noop)
+			} else if i%3 == 0 {
+				opts = append([]datatransfer.TransferOption{noop}, opts...)
+			}
 			if s.Kind == "OpenPushSub" {
-				chid, err = n.M.OpenPushDataChannel(ctx, kit.Peer("B"), kit.Voucher("v0"), kit.Cid("base"), kit.Selector("s"), datatransfer.WithSubscriber(rs.cb))
+				chid, err = n.M.OpenPushDataChannel(ctx, kit.Peer("B"), kit.Voucher("v0"), kit.Cid("base"), kit.Selector("s"), opts...)
 			} else {
-				chid, err = n.M.OpenPullDataChannel(ctx, kit.Peer("B"), kit.Voucher("v0"), kit.Cid("base"), kit.Selector("s"), datatransfer.WithSubscriber(rs.cb))
+				chid, err = n.M.OpenPullDataChannel(ctx, kit.Peer("B"), kit.Voucher("v0"), kit.Cid("base"), kit.Selector("s"), opts...)
 			}
 			cancel()
 			if err != nil {
